@@ -540,6 +540,29 @@ class Body:
                 if v is not None:
                     sw_tag[bb] = (v, {lab: {"true" if mean else "false"} for (t, lab, mean) in si["edges"] if isinstance(mean, bool)})
                     continue
+                if cond[0] == "call" and len(cond[2]) == 2 and cond[1].fn.split("::")[-1] in ("eq", "ne") and "PartialEq" in cond[1].fn:
+                    # `outcome == Outcome::Conflict` on an enum-valued local whose variant is known from its definitions
+                    done_ = False
+                    for (a_, k_) in ((cond[2][0], cond[2][1]), (cond[2][1], cond[2][0])):
+                        v = var_of(a_)
+                        kk = k_
+                        n_ = 0
+                        while kk[0] in ("ref", "deref") and n_ < 6:
+                            kk = kk[1]
+                            n_ += 1
+                        if v is None or kk[0] != "agg" or kk[1].get("agg") != "adt" or not kk[1].get("variant") or kk[2]:
+                            continue
+                        adt_ = self.crate.adts.get(kk[1].get("adt")) if hasattr(self.crate, "adts") else None
+                        fam = {vv["name"] for vv in adt_["variants"]} if adt_ else None
+                        if not fam or any(vv["fields"] for vv in adt_["variants"]):
+                            continue      # only plain (field-less) enums: equality is equality of variants
+                        yes = {kk[1]["variant"]}
+                        pos_ = cond[1].fn.split("::")[-1] == "eq"
+                        sw_tag[bb] = (v, {lab: (yes if (mean == pos_) else fam - yes) for (t, lab, mean) in si["edges"] if isinstance(mean, bool)})
+                        done_ = True
+                        break
+                    if done_:
+                        continue
                 if cond[0] == "call" and cond[2]:
                     name = cond[1].fn.split("::")[-1]
                     if name in self._IS_FNS:
